@@ -837,7 +837,8 @@ func checkC19(w *World, c *Check, tier string) {
 				if !ok {
 					break
 				}
-				if !isIntegerType(phi.Type()) {
+				isFlag := isBoolType(phi.Type())
+				if !isIntegerType(phi.Type()) && !isFlag {
 					continue
 				}
 				for i, e := range phi.Edges {
@@ -852,15 +853,51 @@ func checkC19(w *World, c *Check, tier string) {
 					if ep, isPhi := e.(*ssa.Phi); isPhi {
 						for hh := range lh[ep.Block()] {
 							if hh != h && ep.Block() == hh {
-								bad = fmt.Sprintf("the inner scan at %s starts from a position carried over from the previous look-up (%s), not from the first entry", w.Pos(phi.Pos()), shortVal(e))
+								if isFlag {
+									bad = fmt.Sprintf("the found flag of the inner scan (%s) is not reset for each entry: once one entry has been found, every later entry counts as found without being looked up", shortVal(e))
+								} else {
+									bad = fmt.Sprintf("the inner scan at %s starts from a position carried over from the previous look-up (%s), not from the first entry", w.Pos(phi.Pos()), shortVal(e))
+								}
 							}
 						}
 					}
 				}
 			}
 		}
+		// the flag read after the inner scan: on the way out of an exhausted inner loop it must be the constant false,
+		// not a value the outer loop carries from the previous entry
+		for _, b := range nlvEq.Blocks {
+			for _, in := range b.Instrs {
+				phi, ok := in.(*ssa.Phi)
+				if !ok {
+					break
+				}
+				if !isBoolType(phi.Type()) {
+					continue
+				}
+				for i, e := range phi.Edges {
+					p := b.Preds[i]
+					// p is the header of a loop nested in another loop, and b lies outside that inner loop
+					if !lh[p][p] || lh[b][p] {
+						continue
+					}
+					nested := false
+					for hh := range lh[p] {
+						if hh != p {
+							nested = true
+						}
+					}
+					if !nested {
+						continue
+					}
+					if ep, isPhi := e.(*ssa.Phi); isPhi && lh[ep.Block()][ep.Block()] && ep.Block() != p {
+						bad = fmt.Sprintf("the found flag (%s) is not reset for each entry: when the inner scan finds nothing it keeps the value left by the previous entry, so once one entry has matched every later entry counts as found", shortVal(e))
+					}
+				}
+			}
+		}
 		if bad != "" {
-			c.bad("C19.eq", "NaturalLanguageValues.Equals:full-scan", w.FuncPos(nlvEq), "list equality is positional: "+bad+"; two lists holding the same tag/text pairs in a different order compare unequal")
+			c.bad("C19.eq", "NaturalLanguageValues.Equals:full-scan", w.FuncPos(nlvEq), "list equality does not look every entry up among all entries of the other list: "+bad)
 		} else {
 			c.ok("C19.eq", "NaturalLanguageValues.Equals:full-scan", w.FuncPos(nlvEq), fmt.Sprintf("%d inner scan(s), each over the whole list", nInner))
 		}
